@@ -157,9 +157,9 @@ def _in_finally(node) -> bool:
     return False
 
 
-def rule_shape(program, ctx):
-    rid = ctx.rule(
-        "C19.shape",
+def rule_shape(program, ctx, prop=P, rid="C19.shape"):
+    ctx.rule(
+        rid,
         "validate_message establishes type list and a minimum length L (derived from its `len(message) < L` test) and a command whitelist; "
         "every constant index message[k] in start_client and RateLimiter.is_limited has k < L; the whitelist equals the dispatched commands",
         floor=4,
@@ -198,7 +198,7 @@ def rule_shape(program, ctx):
             if isinstance(l, ast.Subscript) and dotted(l.value) == param and isinstance(r, (ast.Tuple, ast.List, ast.Set)) and ((op is ast.In and pol) or (op is ast.NotIn and not pol)):
                 cmds = {e.value for e in r.elts if isinstance(e, ast.Constant)}
     if L is None or not islist:
-        ctx.bad(finding_func(P, rid, vm, "validate_message no longer establishes `isinstance(message, list)` and a minimum length", text="def validate_message(...)"))
+        ctx.bad(finding_func(prop, rid, vm, "validate_message no longer establishes `isinstance(message, list)` and a minimum length", text="def validate_message(...)"))
         return
     ctx.ok(rid, vm, f"validate_message: list, len >= {L}, command in {sorted(cmds)}")
     sc = program.func("nostr_relay.web:start_client")
@@ -215,13 +215,13 @@ def rule_shape(program, ctx):
                 if isinstance(n.slice, ast.Constant) and isinstance(n.slice.value, int):
                     k = n.slice.value
                     if k >= L or k < -L:
-                        ctx.bad(finding_at(P, rid, n, f"message[{k}] but validate_message only guarantees {L} element(s): IndexError on a short frame"))
+                        ctx.bad(finding_at(prop, rid, n, f"message[{k}] but validate_message only guarantees {L} element(s): IndexError on a short frame"))
                     else:
                         if fn is sc:
                             from ..core import enclosing_stmt
                             st = enclosing_stmt(n)
                             if must_pass(cfg, passes, cfg.nodes_of(st)):
-                                ctx.bad(finding_at(P, rid, n, f"message[{k}] is used on a path that has not passed validate_message"))
+                                ctx.bad(finding_at(prop, rid, n, f"message[{k}] is used on a path that has not passed validate_message"))
                                 continue
                         ctx.ok(rid, n, f"{pname}[{k}] < {L}")
                 elif isinstance(n.slice, ast.Slice):
@@ -232,7 +232,7 @@ def rule_shape(program, ctx):
         if isinstance(n, ast.Compare) and isinstance(n.left, ast.Name) and n.left.id == "command" and len(n.ops) == 1 and isinstance(n.ops[0], ast.Eq) and isinstance(n.comparators[0], ast.Constant):
             dispatched.add(n.comparators[0].value)
     if cmds and dispatched != cmds:
-        ctx.bad(finding_func(P, rid, sc, f"commands accepted by validate_message {sorted(cmds)} differ from those dispatched {sorted(dispatched)}", text="def start_client(...) :: dispatch"))
+        ctx.bad(finding_func(prop, rid, sc, f"commands accepted by validate_message {sorted(cmds)} differ from those dispatched {sorted(dispatched)}", text="def start_client(...) :: dispatch"))
     else:
         ctx.ok(rid, sc, f"dispatch table == validate_message whitelist {sorted(cmds)}")
 
@@ -421,6 +421,31 @@ def rule_writer(program, ctx, prop=P, rid="C19.writer"):
                                "every connection are acknowledged but never stored"))
 
 
+def rule_cancelled_await(program, ctx, prop=P, rid="C19.cancelled"):
+    ctx.rule(
+        rid,
+        "a subscription's query task is cancelled by unsubscribe(); awaiting such a task re-raises asyncio.CancelledError - a BaseException that passes every "
+        "`except Exception` of the connection handler. No code on the connection path (storage/base.py, web.start_client) awaits `<sub>.query_task` outside a try that "
+        "catches CancelledError",
+        floor=1,
+    )
+    n = 0
+    for q in [k for k in program.functions if k.startswith(("nostr_relay.storage.base:", "nostr_relay.web:start_client", "nostr_relay.storage.db:Subscription", "nostr_relay.storage.kv:Subscription"))]:
+        fn = program.functions[q]
+        for a in walk_no_nested(fn):
+            if isinstance(a, ast.Await) and ((isinstance(a.value, ast.Attribute) and a.value.attr == "query_task") or (isinstance(a.value, ast.Call) and "query_task" in ast.unparse(a.value) and call_name(a.value) in ("asyncio.wait_for", "asyncio.shield", "asyncio.gather"))):
+                n += 1
+                tries = [t for t in ancestors(a) if isinstance(t, ast.Try) and any(any(x is a for x in ast.walk(b)) for b in t.body)]
+                caught = any(h.type is None or any(k in ast.unparse(h.type) for k in ("CancelledError", "BaseException")) for t in tries for h in t.handlers)
+                if caught:
+                    ctx.ok(rid, a, f"{qual_of(a)}: awaited under a CancelledError handler")
+                else:
+                    ctx.bad(finding_at(prop, rid, a, f"{qual_of(a)} awaits a query task that unsubscribe() may just have cancelled: CancelledError propagates out of subscribe() through every "
+                                       "`except Exception` and ends the connection handler - later commands on this connection are never answered"))
+    if not n:
+        ctx.ok(rid, program.func("nostr_relay.storage.base:BaseStorage.unsubscribe"), "no await of a query task on the connection path")
+
+
 def run(program, ctx):
     from ..lib import rule_awaited
 
@@ -433,10 +458,14 @@ def run(program, ctx):
     rule_queue(program, ctx)
     rule_filters(program, ctx)
     rule_writer(program, ctx)
+    rule_cancelled_await(program, ctx)
     from . import c06, c13
 
     c06.rule_reap(program, ctx, prop=P, rid="C19.reap")
     c13.rule_typed(program, ctx, prop=P, rid="C19.typed")
+    from . import c03
+
+    c03.rule_chain(program, ctx, prop=P, rid="C19.chain")
     ctx.not_decided += [
         "liveness ('keeps answering') and isolation between connections as runtime facts",
         "resource exhaustion by oversized or deeply nested inputs",
